@@ -1,6 +1,6 @@
 import Brax.Model.Kinematics
 /-!
-# Layer B stage 2: a faithful model of `scan.tree` (root to leaves)
+# Layer B stage 2: faithful models of `scan.tree` (root to leaves, and leaves to root)
 
 `scan.tree` does not recurse link by link: it groups the links by depth, calls the (vmapped)
 function once per level, re-indexes the carry of the previous level through `parent_map`
@@ -44,5 +44,42 @@ def scanTreeLevels {β γ : Type} (f : Option β → γ → β) (parents : List 
   let ys := (levelLoop f parents args dflt dfltY ds lv none).flatten   -- jp.concatenate(ys)
   let order := (lv.map (levelIdxs ds)).flatten                          -- sum([d['l'] for d in depth_idxs], [])
   (List.range parents.length).map fun i => ys.getD (order.idxOf i) dfltY  -- put back in link order
+
+/-! ## leaves to root (`reverse=True`) -/
+
+/-- `jp.zeros(b).at[p].add(x)`: entry `k` accumulates the `x[j]` with `p[j] = k`, in order -/
+def indexSum {β : Type} (zero : β) (add : β → β → β) (b : Nat) (p : List Nat) (x : List β) : List β :=
+  (List.range b).map fun k => ((p.zip x).filter fun e => e.1 == k).foldl (fun acc e => add acc e.2) zero
+
+/-- one level of the reverse loop: `(idxs of the level below, its y)` ↦ `y` of this level -/
+def levelStepRev {β γ : Type} (f : Option β → γ → β) (parents : List Int) (args : List γ) (dflt : γ)
+    (zero : β) (add : β → β → β) (next : Option (List Nat × List β)) (idxs : List Nat) : List β :=
+  let ins := idxs.map fun i => args.getD i dflt                       -- _take(a, depth_idxs[depth]['l'])
+  match next with
+  | none => ins.map (f none)                                           -- y is None on the deepest level
+  | some (cidxs, cy) =>
+    -- parent_map = [link_idxs.index(p) for p in parent_idxs]
+    let parentMap := cidxs.map fun c => idxs.idxOf (parents.getD c (-1)).toNat
+    let ySum := indexSum zero add idxs.length parentMap cy             -- index_sum
+    List.zipWith (fun s a => f (some s) a) ySum ins
+
+/-- the levels, deepest first; every `y` is inserted at the front of `ys` -/
+def levelLoopRev {β γ : Type} (f : Option β → γ → β) (parents : List Int) (args : List γ) (dflt : γ)
+    (zero : β) (add : β → β → β) (ds : List Nat) : List Nat → Option (List Nat × List β) → List (List β)
+  | [], _ => []
+  | d :: rest, next =>
+    let idxs := levelIdxs ds d
+    let y := levelStepRev f parents args dflt zero add next idxs
+    levelLoopRev f parents args dflt zero add ds rest (some (idxs, y)) ++ [y]
+
+/-- `scan.tree(sys, f, 'l…', *args, reverse=True)`, as coded -/
+def scanTreeLevelsRev {β γ : Type} (f : Option β → γ → β) (parents : List Int) (args : List γ) (dflt : γ)
+    (zero : β) (add : β → β → β) : List β :=
+  let ds := depths parents
+  let nLevels := if ds.isEmpty then 0 else ds.foldl max 0 + 1
+  let lv := List.range nLevels
+  let ys := (levelLoopRev f parents args dflt zero add ds lv.reverse none).flatten
+  let order := (lv.map (levelIdxs ds)).flatten
+  (List.range parents.length).map fun i => ys.getD (order.idxOf i) zero
 
 end Brax.Kin
